@@ -261,6 +261,9 @@ GLOBAL_RULES = [
     # (id, regex, replacement, description)
     ('R1', re.compile(r'\.(map|map_err)\(\s*(([A-Z]\w*)::([A-Z]\w*))\s*\)'),
      lambda m: '.%s(|__v| -> (__o: %s) ensures __o == %s(__v) { %s(__v) })' % (m.group(1), m.group(3), m.group(2), m.group(2))),
+    # the prelude constructors Ok / Err / Some used as function values (eta-expansion, as R1)
+    ('R1', re.compile(r'(\.(?:map|and_then|map_or|map_or_else|or_else|unwrap_or_else)\((?:[^()]|\([^()]*\))*?,\s*|\.(?:map|and_then)\(\s*)(Ok|Err|Some)\s*\)'),
+     lambda m: '%s|__v| %s(__v))' % (m.group(1), m.group(2))),
     ('R2', re.compile(r'\|_\|'), lambda m: '|_e|'),
     ('R5', re.compile(r'\b((?:[A-Za-z_]\w*)(?:\.[A-Za-z_]\w*)*)\.deref\(\)'), lambda m: '(&*%s)' % m.group(1)),
     ('R13', re.compile(r'\bfor _ in\b'), lambda m: 'for _i in'),
